@@ -58,19 +58,20 @@ func (w *rw) reloads() int { return strings.Count(w.buf.String(), "data: reload"
 func (w *rw) pings() int   { return strings.Count(w.buf.String(), "data: ping") }
 
 type scenario struct {
-	name       string
-	clients    int  // connected in phase A
-	sends      int  // broadcasts back to back
-	cancel     int  // clients 0..cancel-1 are cancelled concurrently with the broadcast
-	stalled    bool // client `cancel` (first staying one) never reads its reload until phase C
-	broken     bool // the connection of client `cancel` breaks when its reload event is written (a write error, no cancellation)
-	late       bool // one more client connects concurrently with the broadcast
-	churn      bool // before the broadcast: client0 disconnects, then a new client connects (sequentially)
-	extraPing  int
-	stopAfterB bool   // the execution ends after the broadcast phase (the 2^n orders in which n parked deliveries would drain afterwards say nothing about Send)
-	maxBound   int    // > 0: explore this scenario with at most this many deviations (long scenarios); -1 = none
-	post       bool   // broadcasts are triggered by POST /_templ/reload/events through the proxy handler, whose request context is cancelled when the handler returns (as net/http does)
-	proxyLog   string // "" = the sse handler directly; "info" / "debug" = through the live-reload proxy's handler with that log level
+	name        string
+	clients     int  // connected in phase A
+	sends       int  // broadcasts back to back
+	cancel      int  // clients 0..cancel-1 are cancelled concurrently with the broadcast
+	stalled     bool // client `cancel` (first staying one) never reads its reload until phase C
+	broken      bool // the connection of client `cancel` breaks when its reload event is written (a write error, no cancellation)
+	late        bool // one more client connects concurrently with the broadcast
+	churn       bool // before the broadcast: client0 disconnects, then a new client connects (sequentially)
+	extraPing   int
+	stopAfterB  bool   // the execution ends after the broadcast phase (the 2^n orders in which n parked deliveries would drain afterwards say nothing about Send)
+	noGuarantee bool   // bounds 0 and 1 are explored within the time budget like the higher ones (large scenarios)
+	maxBound    int    // > 0: explore this scenario with at most this many deviations (long scenarios); -1 = none
+	post        bool   // broadcasts are triggered by POST /_templ/reload/events through the proxy handler, whose request context is cancelled when the handler returns (as net/http does)
+	proxyLog    string // "" = the sse handler directly; "info" / "debug" = through the live-reload proxy's handler with that log level
 }
 
 // broadcaster is the handler under test: sse.Handler itself, or the proxy handler that mounts it.
@@ -545,9 +546,11 @@ func main() {
 	}
 	if run.Thorough() {
 		scenarios = append(scenarios,
-			scenario{name: "3 clients, 1 broadcast, client0 disconnects", clients: 3, sends: 1, cancel: 1},
-			scenario{name: "3 clients, 2 broadcasts, clients 0,1 disconnect", clients: 3, sends: 2, cancel: 2},
-			scenario{name: "2 clients + late joiner, 2 broadcasts, client0 disconnects, stalled reader", clients: 2, sends: 2, cancel: 1, stalled: false, late: true, extraPing: 1},
+			// the large scenarios are explored within the time budget only (noGuarantee): with three clients the choices
+			// that cost no deviation (which blocked-on thread runs next) alone make bound 1 too large to promise
+			scenario{name: "3 clients, 1 broadcast, client0 disconnects", clients: 3, sends: 1, cancel: 1, noGuarantee: true},
+			scenario{name: "3 clients, 2 broadcasts, clients 0,1 disconnect", clients: 3, sends: 2, cancel: 2, noGuarantee: true},
+			scenario{name: "2 clients + late joiner, 2 broadcasts, client0 disconnects, stalled reader", clients: 2, sends: 2, cancel: 1, stalled: false, late: true, extraPing: 1, noGuarantee: true},
 		)
 	}
 	deadline := time.Now().Add(time.Duration(run.Pick(100, 1500)) * time.Second)
@@ -589,7 +592,7 @@ func main() {
 		} else if sc.maxBound < 0 {
 			b = 0
 		}
-		st := vsched.Explore(vsched.ExploreConfig{Opts: vsched.Options{MaxSteps: 20000}, Bound: b, Deadline: deadline, GuaranteedBound: 1, StateCaching: os.Getenv("VERIF_NO_CACHE") == "", MaxExecutions: run.Pick(400000, 5000000)}, sc.build)
+		st := vsched.Explore(vsched.ExploreConfig{Opts: vsched.Options{MaxSteps: 20000}, Bound: b, Deadline: deadline, GuaranteedBound: map[bool]int{false: 1, true: 0}[sc.noGuarantee], StateCaching: os.Getenv("VERIF_NO_CACHE") == "", MaxExecutions: run.Pick(400000, 5000000)}, sc.build)
 		if st.Diverged != "" {
 			vlib.Fatal("scenario %q: %s", sc.name, st.Diverged)
 		}
